@@ -96,6 +96,7 @@ class FrameSetup(object):
             sums.update(extra_summaries)
         E = engine_cls(self.prog, port=self.port, summaries=sums, entry_name=name)
         E.loop_info = {}
+        E.keep_iter_states = getattr(self, 'keep_iter_states', False)
         mo = self.soff('mapper_real')
         E.tracked_preds = {'M': [(('in', 'st', mo + i), ('in', 'frame', 24 + i)) for i in range(6)]}
 
@@ -266,6 +267,9 @@ def _region_worker(args):
              'extra': getattr(I, 'extra', None)}
     for st, v in outs:
         st.counter = [0]
+    for v in info.values():
+        for item in (v.get('iter_states') or []):
+            item[2].counter = [0]
     return region, [(st, v.t) for st, v in outs], None, obs, stats
 
 
